@@ -279,3 +279,141 @@ def polarity_tests(test: ast.AST):
     flat_and(test)
     flat_or(test)
     return conj, disj
+
+
+def atoms(test: ast.AST, truth: bool):
+    """Atomic facts known on the `truth` edge of `test`: yields (expr, value)."""
+    e = test
+    neg = False
+    while isinstance(e, ast.UnaryOp) and isinstance(e.op, ast.Not):
+        e = e.operand
+        neg = not neg
+    if neg:
+        yield from atoms(e, not truth)
+        return
+    if isinstance(e, ast.BoolOp):
+        if isinstance(e.op, ast.And) and truth:
+            for v in e.values:
+                yield from atoms(v, True)
+        elif isinstance(e.op, ast.Or) and not truth:
+            for v in e.values:
+                yield from atoms(v, False)
+        return
+    yield e, truth
+
+
+def edges_establishing(cfg: CFG, pred) -> list:
+    """(node, label) branch edges on which pred(atom, truth) holds for some atomic fact of that edge."""
+    out = []
+    for n in cfg.nodes:
+        if n.kind != "test" or isinstance(getattr(n, "stmt", None), ast.Match):
+            continue
+        for label in (True, False):
+            if any(pred(a, t) for a, t in atoms(n.ast, label)):
+                out.append((n, label))
+    return out
+
+
+class ReachingDefs:
+    """Flow-sensitive reaching definitions of local names on a CFG.
+
+    defs_at(node, name) -> set of definition markers reaching the *entry* of `node`:
+    an ast statement that binds the name, or the string "PARAM" for the incoming parameter value.
+    """
+
+    def __init__(self, cfg: CFG):
+        self.cfg = cfg
+        fn = cfg.fn
+        a = fn.args
+        self.params = {x.arg for x in a.posonlyargs + a.args + a.kwonlyargs}
+        if a.vararg:
+            self.params.add(a.vararg.arg)
+        if a.kwarg:
+            self.params.add(a.kwarg.arg)
+        self.gen: dict[Node, dict[str, ast.AST]] = {}
+        for n in cfg.nodes:
+            g = {}
+            for name in self._bound(n):
+                g[name] = n.ast
+            self.gen[n] = g
+        self.inn: dict[Node, dict[str, frozenset]] = {n: {} for n in cfg.nodes}
+        self.out: dict[Node, dict[str, frozenset]] = {n: {} for n in cfg.nodes}
+        self.out[cfg.entry] = {p: frozenset(["PARAM"]) for p in self.params}
+        work = list(cfg.nodes)
+        while work:
+            n = work.pop()
+            if n is cfg.entry:
+                new_in = {}
+            else:
+                new_in: dict[str, set] = {}
+                for _, p in n.pred:
+                    for k, v in self.out[p].items():
+                        new_in.setdefault(k, set()).update(v)
+                new_in = {k: frozenset(v) for k, v in new_in.items()}
+            self.inn[n] = new_in
+            new_out = dict(new_in) if n is not cfg.entry else dict(self.out[cfg.entry])
+            for name, st in self.gen[n].items():
+                new_out[name] = frozenset([st])
+            if new_out != self.out[n]:
+                self.out[n] = new_out
+                for _, s in n.succ:
+                    work.append(s)
+
+    @staticmethod
+    def _targets(t, out):
+        if isinstance(t, ast.Name):
+            out.append(t.id)
+        elif isinstance(t, (ast.Tuple, ast.List)):
+            for e in t.elts:
+                ReachingDefs._targets(e, out)
+        elif isinstance(t, ast.Starred):
+            ReachingDefs._targets(t.value, out)
+
+    def _bound(self, n: Node) -> list[str]:
+        out: list[str] = []
+        a = n.ast
+        if a is None:
+            return out
+        if n.kind == "for":
+            self._targets(a.target, out)
+            return out
+        if n.kind == "with":
+            for i in a.items:
+                if i.optional_vars is not None:
+                    self._targets(i.optional_vars, out)
+            return out
+        if n.kind == "handler":
+            if a.name:
+                out.append(a.name)
+            return out
+        if n.kind == "case":
+            for sub in ast.walk(a.pattern):
+                if isinstance(sub, (ast.MatchAs, ast.MatchStar)) and sub.name:
+                    out.append(sub.name)
+            return out
+        if n.kind == "def":
+            out.append(a.name)
+            return out
+        if isinstance(a, ast.Assign):
+            for t in a.targets:
+                self._targets(t, out)
+        elif isinstance(a, (ast.AnnAssign, ast.AugAssign)):
+            if getattr(a, "value", None) is not None:
+                self._targets(a.target, out)
+        elif isinstance(a, (ast.Import, ast.ImportFrom)):
+            for al in a.names:
+                out.append((al.asname or al.name).split(".")[0])
+        for sub in ast.walk(a) if isinstance(a, ast.AST) else []:
+            if isinstance(sub, ast.NamedExpr) and isinstance(sub.target, ast.Name):
+                out.append(sub.target.id)
+        return out
+
+    def defs_at(self, node: Node, name: str) -> frozenset:
+        return self.inn.get(node, {}).get(name, frozenset())
+
+    def defs_for_use(self, use: ast.AST, name: str | None = None) -> frozenset:
+        """Definitions reaching the CFG node that contains the expression `use` (a Name by default)."""
+        n = self.cfg.containing(use)
+        if n is None:
+            return frozenset()
+        return self.defs_at(n, name or use.id)
